@@ -522,6 +522,33 @@ def enclosing_block(blank, pos):
     return None
 
 
+def check_unconditional(h, blank, pos, allowed_if_blocks=()):
+    """every block enclosing the call site up to the function body must be the function body itself,
+    a closure body (rt.transaction(|st, rt| { .. })) or a plain block -- not an if/match/loop arm
+    (except the recognised two-arm branching, whose `{` positions are passed in)"""
+    p = pos
+    while True:
+        b = enclosing_block(blank, p)
+        if b is None:
+            err(f"{h.where()}: validate call site outside any block")
+        if b == 0:
+            return
+        # head: text between the previous `;`, `{` or `}` (at any depth) and this `{`
+        k = b - 1
+        while k >= 0 and blank[k] not in ";{}":
+            k -= 1
+        head = norm(blank[k + 1:b])
+        if b in allowed_if_blocks:
+            pass
+        elif re.search(r"\|[^|]*\|$", head) or re.search(r"\bmove \|[^|]*\|$", head):
+            pass                      # closure body
+        elif head == "" or head.endswith("="):
+            pass                      # plain block / block expression
+        else:
+            err(f"{h.where()}: validate call site is inside a conditional or loop: `{head[-80:]} {{`")
+        p = b - 1
+
+
 def site_guard(h, kind, arg):
     if kind == "accept_any":
         if arg:
@@ -663,6 +690,7 @@ def analyse_handler(rf, scope, actor, fname, depth=0):
     blank = blank_strings(body)
     guards = [site_guard(h, k, a) for (k, a, s, e) in sites]
     if len(sites) == 1:
+        check_unconditional(h, blank, sites[0][2])
         g = guards[0]
     elif len(sites) == 2 and sites[0][0] == "is" and sites[1][0] == "is":
         # must be the two arms of one if / else-if chain
@@ -697,6 +725,8 @@ def analyse_handler(rf, scope, actor, fname, depth=0):
             err(f"{h.where()}: condition of the first validate arm not understood: `{cond1}`")
         if not re.fullmatch(r"else if let Some\(" + re.escape(m2.group(1)) + r"\) = " + re.escape(cm.group(1)), cond2):
             err(f"{h.where()}: condition of the second validate arm not understood: `{cond2}`")
+        check_unconditional(h, blank, sites[0][2], (b1, b2))
+        check_unconditional(h, blank, sites[1][2], (b1, b2))
         g = "Branching (%s) (%s)" % (guards[0], guards[1])
     else:
         err(f"{h.where()}: {len(sites)} validate_immediate_caller_* call sites in an unknown arrangement")
